@@ -40,7 +40,7 @@ CLAIMED = {
    technique="deterministic simulation: seeded resize/write/restart histories vs array model",
    ref="DESIGN.md section 4 C13"),
  "C16": dict(level="exploration", engine="E1-history-simulator",
-   text="Seeded histories interleaving valid calls with calls built to fail at 31 validation and capacity points (incl. replacing an attribute by one that overflows the header, calls on closed handles and repeated Close); the model ignores every call that returned an error, so any trace a failed call leaves in the reopened file, any later misbehaviour and any panic is a violation.",
+   text="Seeded histories interleaving valid calls with calls built to fail at 31 validation and capacity points (incl. replacing an attribute by one that overflows the header, calls on closed handles and repeated Close); the model ignores every call that returned an error, so any trace a failed call leaves in the reopened file, any later misbehaviour and any panic is a violation. Transparency oracle: every history whose calls built to fail did fail is executed a second time without them; a call refused only after the rejected calls is a violation, and with equal outcomes the two closed files must hold equal logical content (rejection-storm workloads: one long name requested again 4-14 times in a group, then new long names).",
    technique="deterministic simulation: histories with failing calls vs model that ignores failed calls",
    ref="DESIGN.md section 4 C16"),
  "C17": dict(level="fault_enumeration", engine="E2-fault-simulator",
@@ -64,12 +64,12 @@ CLAIMED = {
    note="Trusted base: the invariant checker in sim/e1/c19.go, the simulated Clock. The BTreeV2 adapter in the selector part is a stub (file size only).",
    ref="DESIGN.md section 4 C19"),
  "C18": dict(level="exploration", engine="E4-schedule-simulator",
-   text="Each simulated run is one testing/synctest bubble inside a -race binary: caller tasks and the library's own ticker/monitor goroutines are serialised by seeded fake-clock delays at yield points (operation boundaries, every I/O call, H2 sites inside the rebalancers and the selector, timer firings) - no happens-before edge is added, so the race detector reports every unsynchronised conflicting access that occurs in the explored schedule. Oracles: no race report with a library frame (incl. sync-primitive misuse annotations), no panic, every Stop returns within the step budget (bounded liveness), no library goroutine alive after the last Stop, independent handles give the sequential results, the incremental-mode script gives the same call results and final index content as the same script without the background rebalancer, and a library mutex that is never released (which stalls the bubble in real time) is reported as a deadlock after a 15 s real-time limit; the deterministic buffer pool reports a scratch buffer that is released twice; a metrics snapshot must not change after it was taken; no monitor goroutine may be parked in its loop when Stop has returned (also when the context's owner cancelled it first); readers of damaged copies run next to healthy handles. Failing schedules are minimised over the explicit trace (scripts and delay lists) and must reproduce twice in fresh processes (up to 8 attempts: see note).",
-   technique="deterministic simulation: seeded fake-time scheduler inside testing/synctest under the race detector",
+   text="Three of the four workload kinds: each simulated run is one testing/synctest bubble inside a -race binary (the fourth, on the workload detector, uses inline interleavings at the injected Clock seam with lock probing: when the library reads the clock and the detector's lock is free, a whole second operation - Close, Record, a query - is executed right there; results must be those of a sequential order): caller tasks and the library's own ticker/monitor goroutines are serialised by seeded fake-clock delays at yield points (operation boundaries, every I/O call, H2 sites inside the rebalancers and the selector, timer firings) - no happens-before edge is added, so the race detector reports every unsynchronised conflicting access that occurs in the explored schedule. Oracles: no race report with a library frame (incl. sync-primitive misuse annotations), no panic, every Stop returns within the step budget (bounded liveness), no library goroutine alive after the last Stop, independent handles give the sequential results, the incremental-mode script gives the same call results and final index content as the same script without the background rebalancer, and a library mutex that is never released (which stalls the bubble in real time) is reported as a deadlock after a 15 s real-time limit; the deterministic buffer pool reports a scratch buffer that is released twice; a metrics snapshot must not change after it was taken; no monitor goroutine may be parked in its loop when Stop has returned (also when the context's owner cancelled it first); readers of damaged copies run next to healthy handles. Failing schedules are minimised over the explicit trace (scripts and delay lists) and must reproduce twice in fresh processes (up to 8 attempts: see note).",
+   technique="deterministic simulation: seeded fake-time scheduler inside testing/synctest under the race detector; lock-probing inline interleavings at the Clock seam",
    note="Trusted base: Go's race detector and testing/synctest (go1.26.8), the scheduler in sim/e4/sched.go. Interleavings at the granularity of yield points, I/O calls and timer firings. A background goroutine sleeps at a yield point only if it wakes before its ticker's next firing (otherwise Go's select could find a tick and a stop request ready together and would choose with the runtime's unseeded PRNG); in smart-rebalancer traces where more than one caller uses Start/Stop background goroutines do not sleep at all (a caller blocked on the lifecycle mutex is not durably blocked in synctest). Measured residual nondeterminism at GOMAXPROCS=1 (the only setting workers use): about 1 run in 300, when the library makes two goroutines runnable at the same instant (wg.Done + go); replays therefore get up to 8 attempts to reproduce twice.",
    ref="DESIGN.md section 4 C18"),
  "C07": dict(level="exploration", engine="E2-fault-simulator",
-   text="Storage-corruption fault injection: per workload (bundled reference file or file written by a simulated history) seeded, decoder-directed alterations of the stored bytes (boundary values over positions in every metadata structure, self-referential addresses, version-1 B-tree nodes turned into 12-60 level ladders of shared children, extent sweeps that set every aligned 8/4-byte field position of a structure's header part to all-ones / the sign bit / 2^64-16, random multi-byte mutations, truncations) are applied one at a time and everything reachable is read through the public API, in crash-tolerant worker processes under a 4 GiB address-space limit and a hang watchdog; a process death is attributed to the announced trace+mutation (allocation/overflow site taken from the dying goroutine's stack) and reported only after two fresh-process replays.",
+   text="Storage-corruption fault injection: per workload (bundled reference file or file written by a simulated history) seeded, decoder-directed alterations of the stored bytes (boundary values over positions in every metadata structure, self-referential addresses, link-graph rewirings of version-2 object headers - a hard link pointed back at its own group or the root, optionally behind a first link message re-encoded as a soft link, checksum recomputed -, version-1 B-tree nodes turned into 12-60 level ladders of shared children, extent sweeps that set every aligned 8/4-byte field position of a structure's header part to all-ones / the sign bit / 2^64-16, random multi-byte mutations, truncations) are applied one at a time and everything reachable is read through the public API, in crash-tolerant worker processes under a 4 GiB address-space limit and a hang watchdog; a process death is attributed to the announced trace+mutation (allocation/overflow site taken from the dying goroutine's stack) and reported only after two fresh-process replays.",
    technique="deterministic simulation with stored-byte fault injection (seeded, decoder-directed), isolated crash-tolerant workers",
    note="Trusted base: the independent decoder for locating metadata structures (placement only), the resource oracle constants (1e5+64*size reads, 256 MiB+1100*size bytes), Go toolchain. Sampling, not proof; inputs > 4 MiB not explored.",
    ref="DESIGN.md section 4 C07"),
